@@ -631,3 +631,56 @@ def purity_obligations(ctx: Context, rule: str, fi: FuncInfo, params: Iterable[s
                         bad.append((call, f"{f.name}() modifies its argument {f.params[i]!r} in place", fi))
         ctx.check(rule, not bad, f"{what}: nothing is written through `{prm}` (no store, in-place method or non-copying view that is then modified)", fi,
                   bad[0][0] if bad else fi.node, construct=f"{fi.short}: writes through `{prm}`: " + ('; '.join(sorted({h for _, h, _ in bad})) if bad else 'none'))
+
+
+# --------------------------------------------------------------------------- Arakawa C mask table
+
+def arakawa_mask_table(ctx: Context) -> dict:
+    """{variable name in the returned mask dataset: (smear axes or 'centres' or None, dims text)} for
+    c_mask_from_centres, resolved through local names so that renaming the intermediates changes nothing."""
+    cf = ctx.func('emsarray.conventions.arakawa_c.c_mask_from_centres')
+    flow = ctx.flow(cf)
+    out = {'_fi': cf, '_call': None, '_coords': None}
+    dsc = [c for c in calls_in(cf) if (callee(ctx, cf, c) or '').endswith('xarray.Dataset')]
+    if len(dsc) != 1 or not all(flow.resolve(r.value) is dsc[0] for r in cf.returns()) or not cf.returns():
+        return out
+    out['_call'] = dsc[0]
+    co = kwarg(dsc[0], 'coords')
+    out['_coords'] = flow.canon(co) if co is not None else None
+    dv = flow.resolve(kwarg(dsc[0], 'data_vars') or (dsc[0].args[0] if dsc[0].args else ast.Constant(None)))
+    if not isinstance(dv, ast.Dict):
+        return out
+    for k, v in zip(dv.keys, dv.values):
+        name = const_value(k, None) if k is not None else None
+        v = flow.resolve(v)
+        if name is None or not (isinstance(v, ast.Call) and (callee(ctx, cf, v) or '').endswith('xarray.DataArray')):
+            out[name] = (None, None)
+            continue
+        data = flow.resolve(arg_or_kw(v, 0, 'data')) if arg_or_kw(v, 0, 'data') is not None else None
+        dims = arg_or_kw(v, 2, 'dims')
+        dims_text = norm_text(flow.resolve(dims)) if dims is not None else None
+        what = None
+        if data is not None and flow.canon(data) == ('param', cf.params[0]):
+            what = 'centres'
+        elif isinstance(data, ast.Call) and callee(ctx, cf, data) == 'emsarray.masking.smear_mask' and len(data.args) == 2 \
+                and flow.canon(data.args[0]) == ('param', cf.params[0]):
+            axes = flow.resolve(data.args[1])
+            what = [const_value(e, None) for e in axes.elts] if isinstance(axes, (ast.List, ast.Tuple)) else None
+        out[name] = (what, dims_text)
+    return out
+
+
+_POSITIVE = {ast.NotEq: ast.Eq, ast.NotIn: ast.In, ast.IsNot: ast.Is}
+
+
+def positive_conditions(fi: FuncInfo, node: ast.AST) -> list[tuple[ast.AST, bool]]:
+    """path_conditions with every single comparison put in its positive form:
+    (`a != b`, p) -> (`a == b`, not p); `not in` -> `in`; `is not` -> `is`."""
+    out = []
+    for test, pol in path_conditions(fi, node):
+        if isinstance(test, ast.Compare) and len(test.ops) == 1 and type(test.ops[0]) in _POSITIVE:
+            new = ast.Compare(left=test.left, ops=[_POSITIVE[type(test.ops[0])]()], comparators=test.comparators)
+            ast.copy_location(new, test)
+            test, pol = new, not pol
+        out.append((test, pol))
+    return out
